@@ -184,15 +184,29 @@ func (P *Program) VerifyFunc(fn *ssa.Function) (res *FuncResult) {
 			}
 			c.checkInvariants(fr, ex, name, props)
 			for _, k := range c.keptLeaves(con) {
-				cur := c.H(ex.st, k[0], k[1])
-				init := c.H(fr.old, k[0], k[1])
-				if cur != init && !strings.HasPrefix(k[1], "(Array") {
-					c.oblige("frame", fmt.Sprintf("%s#keeps{%s}", name, k[0]), "", props, eq(cur, init), ex.site.Pos(), "declared 'keeps': unchanged: "+k[0])
+				cur := c.H(ex.st, k.leaf, k.sort)
+				init := c.H(fr.old, k.leaf, k.sort)
+				if cur != init && !strings.HasPrefix(k.sort, "(Array") {
+					c.oblige("frame", fmt.Sprintf("%s#keeps{%s}", name, k.leaf), "", props, eq(cur, init), ex.site.Pos(), "declared 'keeps': unchanged: "+k.leaf)
 				} else if cur != init {
 					c.nsym++
 					rsk := c.fresh("sk_r", "Int")
-					g := implies(and(app("<=", "0", rsk), app("<", rsk, c.next(fr.old))), eq(app("select", cur, rsk), app("select", init, rsk)))
-					c.oblige("frame", fmt.Sprintf("%s#keeps{%s}", name, k[0]), "", props, g, ex.site.Pos(), "declared 'keeps': unchanged for every object that existed at entry: "+k[0])
+					conds := []string{app("<=", "0", rsk), app("<", rsk, c.next(fr.old))}
+					for _, e := range k.except {
+						exx, err := parseExprCached(e)
+						if err != nil {
+							c.unsupported("keeps except %q", e)
+							continue
+						}
+						v := env.evalTop(&Clause{Src: e, Expr: exx})
+						conds = append(conds, not(eq(rsk, v.Term)))
+					}
+					g := implies(and(conds...), eq(app("select", cur, rsk), app("select", init, rsk)))
+					what := k.leaf
+					if len(k.except) > 0 {
+						what += " except " + strings.Join(k.except, ", ")
+					}
+					c.oblige("frame", fmt.Sprintf("%s#keeps{%s}", name, k.leaf), "", props, g, ex.site.Pos(), "declared 'keeps': unchanged for every object that existed at entry: "+what)
 				}
 			}
 			if !con.AssignsAll {
